@@ -568,4 +568,273 @@ theorem printKL2_bal (cs : List Cmd) (hw : pwfL2 cs) : Bal (printKL2 cs []) := b
     exact (printK2_bal c hw.1).append (printKL2_bal cs hw.2)
 end
 
+
+/-! ## dispatch lemmas for `'`, `{` and `Sub` -/
+
+theorem lex_chordBegin (tb : Int) (f : Nat) (cs : List Nat) (ln : Int) :
+    lexLoop tb (f + 1) (39 :: cs) ln false = pre (tok .harmonyBegin 0 []) (lexLoop tb f cs ln true) := by
+  rw [lexLoop]
+  simp only [zen_ascii 39 (by decide)]
+  simp (config := { decide := true }) only [if_false, if_true]
+  cases lexLoop tb f cs ln true <;> rfl
+
+theorem lex_chordEnd (tb : Int) (f : Nat) (cs : List Nat) (ln : Int) :
+    lexLoop tb (f + 1) (39 :: cs) ln true =
+      pre (readHarmonyEnd ⟨cs, ln⟩).1 (lexLoop tb f (readHarmonyEnd ⟨cs, ln⟩).2.s (readHarmonyEnd ⟨cs, ln⟩).2.line false) := by
+  rw [lexLoop]
+  simp only [zen_ascii 39 (by decide)]
+  simp (config := { decide := true }) only [if_false, if_true]
+  cases lexLoop tb f (readHarmonyEnd ⟨cs, ln⟩).2.s (readHarmonyEnd ⟨cs, ln⟩).2.line false <;> rfl
+
+/-- the token of a `Sub{…}` block and of a tuplet, given the answers of the two nested calls -/
+def subOut (ln : Int) (inner o : Option Out) : Option Out :=
+  match inner, o with
+  | some i, some o => some ⟨.mk .sub 0 0 none [] (some (.mk .lineNo 0 ln none [] none :: i.toks)) :: o.toks, i.errs ++ o.errs⟩
+  | _, _ => none
+
+def divOut (ln : Int) (L : List Nat) (inner o : Option Out) : Option Out :=
+  match inner, o with
+  | some i, some o =>
+    some ⟨.mk .div (countDiv (.mk .lineNo 0 ln none [] none :: i.toks) 1 [] 0) 0 none [.str L] (some (.mk .lineNo 0 ln none [] none :: i.toks)) :: o.toks,
+      i.errs ++ o.errs⟩
+  | _, _ => none
+
+theorem lex_sub (tb : Int) (f : Nat) (T R : List Nat) (ln : Int) (harm : Bool) (hT : Bal T) :
+    lexLoop tb (f + 1) (83 :: 117 :: 98 :: 123 :: (T ++ 125 :: R)) ln harm =
+      subOut ln (lexLoop tb f T ln false) (lexLoop tb f R ln harm) := by
+  have hw : getWord (83 :: 117 :: 98 :: 123 :: (T ++ 125 :: R)) = (wSub, 123 :: (T ++ 125 :: R)) := by
+    simp [getWord, takeWord, isWordChar, isUpper, isLower, isDigit, wSub]
+  have he1 : startsWith wEnd1 (83 :: 117 :: 98 :: 123 :: (T ++ 125 :: R)) = false := by simp [startsWith, wEnd1, List.isPrefixOf]
+  have he2 : startsWith wEnd2 (83 :: 117 :: 98 :: 123 :: (T ++ 125 :: R)) = false := by simp [startsWith, wEnd2, List.isPrefixOf]
+  rw [lexLoop]
+  simp only [zen_ascii 83 (by decide)]
+  simp (config := { decide := true }) only [if_false, if_true, he1, he2, hw, true_or, Bool.false_eq_true, or_self]
+  rw [skipSpace_nonblank 123 _ ln (by decide), getTokenNest_bal T hT R ln]
+  simp only [subOut]
+  cases lexLoop tb f T ln false <;> cases lexLoop tb f R ln harm <;> rfl
+
+theorem lex_div (tb : Int) (f : Nat) (T L R : List Nat) (ln : Int) (harm : Bool) (hT : Bal T)
+    (hL : ∀ c ∈ L, isLenChar c = true) (hR : R = [] ∨ ∃ c r', R = c :: r' ∧ Stop c) :
+    lexLoop tb (f + 1) (123 :: (T ++ 125 :: (L ++ 32 :: R))) ln harm =
+      divOut ln L (lexLoop tb f T ln false) (lexLoop tb f R ln harm) := by
+  rw [lexLoop]
+  simp only [zen_ascii 123 (by decide)]
+  simp (config := { decide := true }) only [if_false, if_true]
+  rw [getTokenNest_bal T hT _ ln, noteLength_then_blank L hL R ln hR]
+  simp only [divOut]
+  cases lexLoop tb f T ln false <;> cases lexLoop tb f R ln harm <;> rfl
+
+
+/-! ## the program theorem in fuel-stable form -/
+
+theorem start_more (c : Nat) (h : c = 39 ∨ c = 123 ∨ c = 83) : Start c := by
+  unfold Start
+  rcases h with h | h | h <;> (subst h; decide)
+
+-- iterations of the main loop (of the call that reads the command) a printed command needs
+mutual
+def cost2 : Cmd → Nat
+  | .loop _ b hb k => 2 + costL2 b + (if hb then 2 + costL2 k else 0) + 2
+  | .sub b => costL2 b + 3
+  | .div b _ => costL2 b + 2
+  | .chord b _ _ _ => costL2 b + 3
+  | c => cost c
+def costL2 : List Cmd → Nat
+  | [] => 0
+  | c :: cs => cost2 c + costL2 cs
+end
+
+theorem simple_old (c : Cmd) (hs : Ex2.simple c = true) (hw : pwf2 c) :
+    pwf c ∧ (∀ R, printK2 c R = printK c R) ∧ cost2 c = cost c := by
+  cases c <;> simp_all [Ex2.simple, pwf2, printK2, cost2]
+
+theorem printK2_next (c : Cmd) (hw : pwf2 c) (R : List Nat) (hR : Next R) : Next (printK2 c R) := by
+  cases c
+  case loop n b hb k => exact Or.inr ⟨91, _, rfl, start_of _ (by simp)⟩
+  case sub b => exact Or.inr ⟨83, _, rfl, start_more _ (by simp)⟩
+  case div b len => exact Or.inr ⟨123, _, rfl, start_more _ (by simp)⟩
+  case chord b len q v => exact Or.inr ⟨39, _, rfl, start_more _ (by simp)⟩
+  case note semi acc nat len q v t o => simp only [pwf2] at hw; simp only [printK2]; exact printK_next _ hw R hR
+  case rest len dir => simp only [pwf2] at hw; simp only [printK2]; exact printK_next _ hw R hR
+  case setL len => simp only [pwf2] at hw; simp only [printK2]; exact printK_next _ hw R hR
+  case setO n => simp only [pwf2] at hw; simp only [printK2]; exact printK_next _ hw R hR
+  case octRel d => simp only [pwf2] at hw; simp only [printK2]; exact printK_next _ hw R hR
+  case setV n => simp only [pwf2] at hw; simp only [printK2]; exact printK_next _ hw R hR
+  case velRel d => simp only [pwf2] at hw; simp only [printK2]; exact printK_next _ hw R hR
+  case setQ n => simp only [pwf2] at hw; simp only [printK2]; exact printK_next _ hw R hR
+  case setT n => simp only [pwf2] at hw; simp only [printK2]; exact printK_next _ hw R hR
+  all_goals exact absurd hw (by simp [pwf2])
+
+theorem printKL2_next (cs : List Cmd) (hw : pwfL2 cs) (R : List Nat) (hR : Next R) : Next (printKL2 cs R) := by
+  induction cs with
+  | nil => exact hR
+  | cons c cs ih =>
+    simp only [pwfL2] at hw
+    exact printK2_next c hw.1 _ (ih hw.2)
+
+/-- a command of the first fragment in front of a stable text -/
+theorem stab_old (tb : Int) (c : Cmd) (hw : pwf c) (R : List Nat) (ln : Int) (harm : Bool) (K : Option Out) (b : Nat)
+    (hR : Next R) (h : Stab tb R ln harm K b) :
+    Stab tb (printK c R) ln harm (preL (Ex2.rawL (Ex2.toTrees c)) K) (b + cost c) := by
+  intro F hF
+  obtain ⟨f, rfl⟩ : ∃ f, F = cost c + f := ⟨F - cost c, by omega⟩
+  rw [lex_printK tb c hw f R ln harm hR, h f (by omega)]
+
+/-- the members of a chord in front of a stable text, under either chord flag -/
+theorem stab_simpleL (tb : Int) (cs : List Cmd) (hw : pwfL2 cs) (hs : cs.all Ex2.simple = true) (R : List Nat) (ln : Int) (harm : Bool)
+    (K : Option Out) (b : Nat) (hR : Next R) (h : Stab tb R ln harm K b) :
+    Stab tb (printKL2 cs R) ln harm (preL (Ex2.rawL (Ex2.toTreesL cs)) K) (b + costL2 cs) := by
+  induction cs with
+  | nil => simpa [printKL2, costL2, Ex2.toTreesL, Ex2.rawL, preL_nil] using h
+  | cons c cs ih =>
+    simp only [pwfL2] at hw
+    simp only [List.all_cons, Bool.and_eq_true] at hs
+    obtain ⟨ho, hp, hc⟩ := simple_old c hs.1 hw.1
+    have h1 := ih hw.2 hs.2
+    have h2 := stab_old tb c ho _ ln harm _ _ (printKL2_next cs hw.2 R hR) h1
+    simp only [printKL2, costL2, Ex2.toTreesL, rawL_append, preL_append, hp, hc]
+    exact h2.mono _ (by omega)
+
+theorem Stab.loopEnd {tb : Int} {R : List Nat} {ln : Int} {harm : Bool} {K : Option Out} {b : Nat} (h : Stab tb R ln harm K b) :
+    Stab tb (93 :: 32 :: R) ln harm (pre (tok .loopEnd 0 []) K) (b + 2) := by
+  intro F hF
+  obtain ⟨f, rfl⟩ : ∃ f, F = f + 1 + 1 := ⟨F - 2, by omega⟩
+  rw [loopEnd_step, h f (by omega)]
+
+theorem Stab.loopBreak {tb : Int} {R : List Nat} {ln : Int} {harm : Bool} {K : Option Out} {b : Nat} (h : Stab tb R ln harm K b) :
+    Stab tb (58 :: 32 :: R) ln harm (pre (tok .loopBreak 0 []) K) (b + 2) := by
+  intro F hF
+  obtain ⟨f, rfl⟩ : ∃ f, F = f + 1 + 1 := ⟨F - 2, by omega⟩
+  rw [loopBreak_step, h f (by omega)]
+
+theorem Stab.loopBegin {tb : Int} {R : List Nat} {ln : Int} {harm : Bool} {K : Option Out} {b : Nat} (n : Nat) (h : Stab tb R ln harm K b) :
+    Stab tb (91 :: (decDigits n ++ 32 :: R)) ln harm (pre (tok .loopBegin 0 [.int n]) K) (b + 2) := by
+  intro F hF
+  obtain ⟨f, rfl⟩ : ∃ f, F = f + 1 + 1 := ⟨F - 2, by omega⟩
+  rw [lex_loopBegin, readLoop_print tb n _ ln (numEnd_blank _)]
+  simp only []
+  rw [lex_blank, h f (by omega)]
+
+theorem subOut_eq (X : List Tok) (K : Option Out) :
+    subOut 0 (preL X (some ⟨[], []⟩)) K = preL [Tok.mk .sub 0 0 none [] (some (Ex2.lineTok :: X))] K := by
+  cases K <;> simp [subOut, preL, Ex2.lineTok]
+
+theorem divOut_eq (L : List Nat) (X : List Tok) (K : Option Out) :
+    divOut 0 L (preL X (some ⟨[], []⟩)) K =
+      preL [Tok.mk .div (countDiv (Ex2.lineTok :: X) 1 [] 0) 0 none [.str L] (some (Ex2.lineTok :: X))] K := by
+  cases K <;> simp [divOut, preL, Ex2.lineTok]
+
+theorem stab_afterChord {tb : Int} {R : List Nat} {K : Option Out} {b : Nat} (q v : Option Int) (h : Stab tb R 0 false K b) :
+    Stab tb (afterChord q v R) 0 false K (b + 1) := by
+  unfold afterChord
+  cases q <;> cases v
+  · exact h.mono _ (by omega)
+  all_goals exact h.blank
+
+/-- the count the lexer stores in a tuplet token is the spec's element count (proved below) -/
+def CountOK : Prop := ∀ b : List Cmd, pwfL2 b → countDiv (Ex2.lineTok :: Ex2.rawL (Ex2.toTreesL b)) 1 [] 0 = Core.countElems b
+
+mutual
+theorem stab_printK2 (tb : Int) (hcd : CountOK) (c : Cmd) (hw : pwf2 c) : ∀ (R : List Nat) (K : Option Out) (b : Nat), Next R →
+    Stab tb R 0 false K b → Stab tb (printK2 c R) 0 false (preL (Ex2.rawL (Ex2.toTrees c)) K) (b + cost2 c) := by
+  intro R K b hR h
+  cases c
+  case loop n body hb k =>
+    simp only [pwf2] at hw
+    obtain ⟨hwb, hwk, hbk⟩ := hw
+    simp only [printK2, cost2, Ex2.toTrees]
+    have hraw : Ex2.rawL [Loop.Tree.loop n (Ex2.toTreesL body) hb (Ex2.toTreesL k)] =
+        tok .loopBegin 0 [.int n] :: (Ex2.rawL (Ex2.toTreesL body) ++ ((if hb then [tok .loopBreak 0 []] ++ Ex2.rawL (Ex2.toTreesL k) else []) ++ [tok .loopEnd 0 []])) := by
+      simp [Ex2.rawL, Ex2.rawT]
+    rw [hraw]
+    cases hb with
+    | true =>
+      simp only [if_true]
+      have h1 := h.loopEnd
+      have h2 := stab_printKL2 tb hcd k hwk _ _ _ (next_loopEnd R) h1
+      have h3 := h2.loopBreak
+      have h4 := stab_printKL2 tb hcd body hwb _ _ _ (next_loopBreak _) h3
+      have h5 := h4.loopBegin n
+      simp only [preL_cons, preL_append, preL_nil, List.cons_append, List.nil_append]
+      exact h5.mono _ (by omega)
+    | false =>
+      have hk : k = [] := by
+        rcases hbk with h | h
+        · cases h
+        · exact h
+      subst hk
+      simp only [Bool.false_eq_true, if_false, List.nil_append]
+      have h1 := h.loopEnd
+      have h4 := stab_printKL2 tb hcd body hwb _ _ _ (next_loopEnd R) h1
+      have h5 := h4.loopBegin n
+      simp only [preL_cons, preL_append, preL_nil, List.cons_append, List.nil_append]
+      exact h5.mono _ (by omega)
+  case sub body =>
+    simp only [pwf2] at hw
+    simp only [printK2, cost2, Ex2.toTrees, rawL_leaf]
+    rw [printKL2_append]
+    have hin := stab_printKL2 tb hcd body hw [] (some ⟨[], []⟩) 1 (Or.inl rfl) (Stab.nil tb 0 false)
+    have hout := h.blank
+    intro F hF
+    obtain ⟨f, rfl⟩ : ∃ f, F = f + 1 := ⟨F - 1, by omega⟩
+    rw [lex_sub tb f _ _ 0 false (printKL2_bal body hw), hin f (by omega), hout f (by omega), subOut_eq]
+  case div body len =>
+    simp only [pwf2] at hw
+    simp only [printK2, cost2, Ex2.toTrees, rawL_leaf]
+    rw [printKL2_append]
+    have hin := stab_printKL2 tb hcd body hw.1 [] (some ⟨[], []⟩) 1 (Or.inl rfl) (Stab.nil tb 0 false)
+    intro F hF
+    obtain ⟨f, rfl⟩ : ∃ f, F = f + 1 := ⟨F - 1, by omega⟩
+    rw [lex_div tb f _ _ _ 0 false (printKL2_bal body hw.1) (lenText_lenchars len hw.2) (next_stop_or_nil hR),
+      hin f (by omega), h f (by omega), divOut_eq, hcd body hw.1]
+  case chord body len q v =>
+    simp only [pwf2] at hw
+    obtain ⟨hwb, hsb, hl, hc⟩ := hw
+    simp only [printK2, cost2, Ex2.toTrees]
+    have h1 := stab_afterChord q v h
+    have h2 : Stab tb (39 :: chordTail len q v R) 0 true (pre (tok .harmonyEnd 0 [Ex2.lenSV len, Ex2.optInt (-1) q, Ex2.velSV v]) K) (b + 1 + 1) := by
+      refine Stab.step _ ?_ h1
+      intro f
+      rw [lex_chordEnd, readHarmonyEnd_print len q v R 0 hl hc hR]
+    have h3 := stab_simpleL tb body hwb hsb _ 0 true _ _ (Or.inr ⟨39, _, rfl, start_more _ (by simp)⟩) h2
+    have h4 := Stab.step (tok .harmonyBegin 0 []) (fun f => lex_chordBegin tb f (printKL2 body (39 :: chordTail len q v R)) 0) h3
+    have hraw : Ex2.rawL (Loop.Tree.leaf (tok .harmonyBegin 0 []) :: (Ex2.toTreesL body ++
+        [Loop.Tree.leaf (tok .harmonyEnd 0 [Ex2.lenSV len, Ex2.optInt (-1) q, Ex2.velSV v])])) =
+        tok .harmonyBegin 0 [] :: (Ex2.rawL (Ex2.toTreesL body) ++ [tok .harmonyEnd 0 [Ex2.lenSV len, Ex2.optInt (-1) q, Ex2.velSV v]]) := by
+      simp [Ex2.rawL, Ex2.rawT, rawL_append]
+    simp only [List.cons_append, List.nil_append, hraw, preL_append, preL_cons, preL_nil]
+    refine Stab.mono h4 (b + (costL2 body + 3)) ?_
+    omega
+  case note semi acc nat len q v t o =>
+    simp only [pwf2] at hw; simp only [printK2, cost2]; exact stab_old tb _ hw R 0 false K b hR h
+  case rest len dir =>
+    simp only [pwf2] at hw; simp only [printK2, cost2]; exact stab_old tb _ hw R 0 false K b hR h
+  case setL len =>
+    simp only [pwf2] at hw; simp only [printK2, cost2]; exact stab_old tb _ hw R 0 false K b hR h
+  case setO n =>
+    simp only [pwf2] at hw; simp only [printK2, cost2]; exact stab_old tb _ hw R 0 false K b hR h
+  case octRel d =>
+    simp only [pwf2] at hw; simp only [printK2, cost2]; exact stab_old tb _ hw R 0 false K b hR h
+  case setV n =>
+    simp only [pwf2] at hw; simp only [printK2, cost2]; exact stab_old tb _ hw R 0 false K b hR h
+  case velRel d =>
+    simp only [pwf2] at hw; simp only [printK2, cost2]; exact stab_old tb _ hw R 0 false K b hR h
+  case setQ n =>
+    simp only [pwf2] at hw; simp only [printK2, cost2]; exact stab_old tb _ hw R 0 false K b hR h
+  case setT n =>
+    simp only [pwf2] at hw; simp only [printK2, cost2]; exact stab_old tb _ hw R 0 false K b hR h
+  all_goals exact absurd hw (by simp [pwf2])
+theorem stab_printKL2 (tb : Int) (hcd : CountOK) (cs : List Cmd) (hw : pwfL2 cs) : ∀ (R : List Nat) (K : Option Out) (b : Nat), Next R →
+    Stab tb R 0 false K b → Stab tb (printKL2 cs R) 0 false (preL (Ex2.rawL (Ex2.toTreesL cs)) K) (b + costL2 cs) := by
+  intro R K b hR h
+  cases cs with
+  | nil => simpa [printKL2, costL2, Ex2.toTreesL, Ex2.rawL, preL_nil] using h
+  | cons c cs =>
+    simp only [pwfL2] at hw
+    have h1 := stab_printKL2 tb hcd cs hw.2 R K b hR h
+    have h2 := stab_printK2 tb hcd c hw.1 _ _ _ (printKL2_next cs hw.2 R hR) h1
+    simp only [printKL2, costL2, Ex2.toTreesL, rawL_append, preL_append]
+    exact h2.mono _ (by omega)
+end
+
 end Sakura.Lp
